@@ -169,13 +169,14 @@ theorem op_refine (v : Var) (op : Op) (h : v.WF) (ok : opOK v op = true) :
 
 /-- The full statement of the property on the model: for EVERY operation sequence, running the
     code's operations and abstracting = running bash's operations on the map.  It is false of the
-    code as it stands (three counter-examples below), so it is kept as a statement. -/
+    code as it stands (`elem_append_counterexample` below), so it is kept as a statement. -/
 def ops_refine_statement : Prop :=
   ∀ ops : List Op, ∃ v, runOps Var.zero ops = .ok v ∧ v.abs = specRun [] ops
 
-/-- What holds: every sequence that stays outside the three recorded divergences (`runOK`,
-    a decidable condition evaluated along the run) refines the map specification — by induction
-    over the sequence, from any well-formed variable. -/
+/-- What holds: every sequence that stays outside the one recorded divergence (`runOK`, a
+    decidable condition evaluated along the run: `a[i]+=s` only on an unset variable, and no
+    negative `unset 's[-n]'` on a scalar) refines the map specification — by induction over the
+    sequence, from any well-formed variable. -/
 theorem ops_refine_partial_from (v : Var) (h : v.WF) (ops : List Op) (ok : runOK v ops = true) :
     ∃ v', runOps v ops = .ok v' ∧ v'.WF ∧ v'.abs = specRun v.abs ops :=
   let ⟨v', e, w, ab⟩ := runOps_spec ops v h
@@ -185,7 +186,36 @@ theorem ops_refine_partial (ops : List Op) (ok : runOK Var.zero ops = true) :
     ∃ v, runOps Var.zero ops = .ok v ∧ v.WF ∧ v.abs = specRun [] ops :=
   ops_refine_partial_from Var.zero Var.WF.zero_var ops ok
 
-/-! ### The three divergences (replayed on the Go code and on bash by the harness) -/
+def isAppElem : Op → Bool
+  | .appElem _ _ => true
+  | _ => false
+
+def isNegUnset : Op → Bool
+  | .unsetElem i => decide (i < 0)
+  | _ => false
+
+theorem runOK_of_syntactic (ops : List Op) (h1 : ops.all (fun o => !isAppElem o) = true)
+    (h2 : ops.all (fun o => !isNegUnset o) = true) : ∀ v, v.WF → runOK v ops = true := by
+  induction ops with
+  | nil => intro v _; rfl
+  | cons op ops ih =>
+    intro v h
+    simp only [List.all_cons, Bool.and_eq_true] at h1 h2
+    obtain ⟨v', e, w, _⟩ := applyOp_spec v op h
+    simp only [runOK, e, Bool.and_eq_true]
+    refine ⟨?_, ih h1.2 h2.2 v' w⟩
+    cases op <;> simp [opOK, isAppElem, isNegUnset] at h1 h2 ⊢
+    omega
+
+/-- A purely syntactic sufficient condition: a sequence without `a[i]+=s` and without negative
+    `unset` subscripts (whole-array and element assignment with negative subscripts, `+=`, literals
+    with out-of-range subscripts, non-negative unsets, `unset a` — all included) refines the map. -/
+theorem ops_refine_syntactic (ops : List Op) (h1 : ops.all (fun o => !isAppElem o) = true)
+    (h2 : ops.all (fun o => !isNegUnset o) = true) :
+    ∃ v, runOps Var.zero ops = .ok v ∧ v.WF ∧ v.abs = specRun [] ops :=
+  ops_refine_partial ops (runOK_of_syntactic ops h1 h2 Var.zero Var.WF.zero_var)
+
+/-! ### The remaining divergence (replayed on the Go code and on bash by the harness) -/
 
 def bX : Str := [120]
 def bY : Str := [121]
@@ -193,34 +223,38 @@ def bZ : Str := [122]
 def bQ : Str := [113]
 def bR : Str := [114]
 
-/-- `a=(x y); a[1]+=z`: the code yields `(xz "")`, bash `(x yz)`. -/
+/-- `a=(x y); a[1]+=z`: the code yields `(x "")` (the variable's `Str` is stored at index 1),
+    bash `(x yz)`. -/
 theorem elem_append_counterexample :
     runOps Var.zero [.assign [.plain bX, .plain bY], .appElem 1 bZ]
-      = .ok ⟨.indexed, true, [], ⟨[bX ++ bZ, []], none⟩⟩ ∧
+      = .ok ⟨.indexed, true, [], ⟨[bX, []], none⟩⟩ ∧
     specRun [] [.assign [.plain bX, .plain bY], .appElem 1 bZ] = [(0, bX), (1, bY ++ bZ)] := by
-  decide
-
-/-- `a=(x y [-5]=q r)`: the code stops at the bad subscript, bash skips it: `(x y)` vs `(x y r)`. -/
-theorem literal_bad_subscript_counterexample :
-    runOps Var.zero [.assign [.plain bX, .plain bY, .at (-5) bQ, .plain bR]]
-      = .ok ⟨.indexed, true, [], ⟨[bX, bY], none⟩⟩ ∧
-    specRun [] [.assign [.plain bX, .plain bY, .at (-5) bQ, .plain bR]]
-      = [(0, bX), (1, bY), (2, bR)] := by
-  decide
-
-/-- `a[0]=x; unset a`: the array is not `IsSet()`, `unset` leaves it alone; bash unsets it. -/
-theorem unset_after_elem_assign_counterexample :
-    runOps Var.zero [.setElem 0 bX, .unsetAll] = .ok ⟨.indexed, false, [], ⟨[bX], none⟩⟩ ∧
-    specRun [] [.setElem 0 bX, .unsetAll] = [] := by
   decide
 
 theorem ops_refine_statement_false : ¬ ops_refine_statement := by
   intro h
-  obtain ⟨v, e, ab⟩ := h [.setElem 0 bX, .unsetAll]
-  rw [unset_after_elem_assign_counterexample.1] at e
+  obtain ⟨v, e, ab⟩ := h [.assign [.plain bX, .plain bY], .appElem 1 bZ]
+  rw [elem_append_counterexample.1] at e
   cases e
-  rw [unset_after_elem_assign_counterexample.2] at ab
-  cases ab
+  rw [elem_append_counterexample.2] at ab
+  revert ab
+  decide
+
+/-! ### Repaired by `fix:` commits 1543c4b and 52fb9f0 (witnesses in corpus/C33-fixed.txt) -/
+
+/-- `a=(x y [-5]=q r)`: the bad subscript only skips its element: `(x y r)`, as in bash. -/
+theorem literal_bad_subscript_fixed :
+    runOps Var.zero [.assign [.plain bX, .plain bY, .at (-5) bQ, .plain bR]]
+      = .ok ⟨.indexed, true, [], ⟨[bX, bY, bR], none⟩⟩ ∧
+    specRun [] [.assign [.plain bX, .plain bY, .at (-5) bQ, .plain bR]]
+      = [(0, bX), (1, bY), (2, bR)] := by
+  decide
+
+/-- `a[0]=x; unset a`: an array created by an element assignment `IsSet()` and can be unset. -/
+theorem unset_after_elem_assign_fixed :
+    runOps Var.zero [.setElem 0 bX, .unsetAll] = .ok Var.zero ∧
+    specRun [] [.setElem 0 bX, .unsetAll] = [] := by
+  decide
 
 /-! ### Non-vacuity -/
 
@@ -230,7 +264,7 @@ theorem ops_refine_statement_false : ¬ ops_refine_statement := by
 def demoOps : List Op :=
   [.assign [.plain bX, .at 5 bY, .plain bZ],   -- a=(x [5]=y z)        {0:x 5:y 6:z}
    .setElem (-1) bQ,                           -- a[-1]=q              {0:x 5:y 6:q}
-   .append [.plain bR, .at (-8) bZ],           -- a+=(r [-8]=z)        {0:z 5:y 6:q 7:r}
+   .append [.plain bR, .at (-8) bZ, .at (-20) bQ], -- a+=(r [-8]=z [-20]=q) {0:z 5:y 6:q 7:r} (last skipped)
    .unsetElem (-2),                            -- unset 'a[-2]'        {0:z 5:y 7:r}
    .appStr bX,                                 -- a+=x                 {0:zx 5:y 7:r}
    .unsetElem 5, .unsetElem 7,                 -- back to dense        {0:zx}
